@@ -4,6 +4,7 @@
 -/
 import Lean.Data.Json
 import Protobom.Model.Graph
+import Protobom.Model.Diff
 
 namespace Protobom.Driver
 open Lean Protobom
@@ -201,6 +202,23 @@ def run (j : Json) : R Json := do
       let states := (prog.foldl (fun (st : List NodeList × List (List NodeList)) i =>
           let r := exec st.1 i; (r, st.2 ++ [r])) (regs, [])).2
       pure (Json.arr (states.map (fun rs => Json.arr (rs.map jNL).toArray)).toArray)
+  | "flatNode" => do pure (Json.str (← nodeOf (← j.getObjVal? "n")).flat)
+  | "flatEdge" => do pure (Json.str (← edgeOf (← j.getObjVal? "e")).flat)
+  | "flatPerson" => do pure (Json.str (← personOf (← j.getObjVal? "p")).flat)
+  | "flatRef" => do pure (Json.str (← refOf (← j.getObjVal? "r")).flat)
+  | "equalNode" => do
+      pure (Json.bool ((← nodeOf (← j.getObjVal? "n")).equal (← nodeOf (← j.getObjVal? "m"))))
+  | "equalEdge" => do
+      pure (Json.bool ((← edgeOf (← j.getObjVal? "e")).equal (← edgeOf (← j.getObjVal? "f"))))
+  | "equalNL" => do pure (Json.bool (NodeList.equalWith id (← getNL j "a") (← getNL j "b")))
+  | "diff" => do
+      let n ← nodeOf (← j.getObjVal? "n"); let m ← nodeOf (← j.getObjVal? "m")
+      pure (match n.diff m with
+            | none => Json.str "nil"
+            | some d => Json.mkObj [("added", jNode d.added), ("removed", jNode d.removed), ("count", toJson d.count)])
+  | "apply" => do
+      let n ← nodeOf (← j.getObjVal? "n"); let m ← nodeOf (← j.getObjVal? "m")
+      pure (jNode (n.applyDiff (n.diff m)))
   | "update" => do pure (jNode ((← nodeOf (← j.getObjVal? "n")).update (← nodeOf (← j.getObjVal? "m"))))
   | "augment" => do pure (jNode ((← nodeOf (← j.getObjVal? "n")).augment (← nodeOf (← j.getObjVal? "m"))))
   | _ => throw s!"unknown op {op}"
